@@ -7,6 +7,8 @@
 # Miri's data-race and UB detection on. Executions run as parallel processes (-Zmiri-many-seeds is
 # sequential in this toolchain), after one sequential execution that also does the build.
 # exit 0 held / 1 violated (prints `VIOLATION property=C47 replay=...`) / 2 inconclusive.
+# $C47_MIRI_CARGO_CONFIG (optional) is passed to cargo as --config (used to point kanidm_actors at a
+# mutated copy when the oracle was mutation tested); $C47_MIRI_PAR = parallel processes (default 8).
 # A hang (Miri "deadlock", in-program watchdog, outer timeout), a build failure or a Miri UB/data-race
 # report is INCONCLUSIVE for C47 (the report is printed; it is not what C47 states).
 set -u
@@ -26,7 +28,7 @@ trap 'rm -rf "$out"' EXIT
 start=$(date +%s)
 one() { # round miri_seed
   C47_SEED=$(( seed * 1000 + $1 )) MIRIFLAGS="-Zmiri-disable-isolation -Zmiri-seed=$2" \
-    timeout -k 10 "$limit" cargo +nightly miri run --offline >"$out/r$1-s$2.log" 2>&1
+    timeout -k 10 "$limit" cargo +nightly miri run --offline ${C47_MIRI_CARGO_CONFIG:+--config "$C47_MIRI_CARGO_CONFIG"} >"$out/r$1-s$2.log" 2>&1
   echo "$?" >"$out/r$1-s$2.rc"
 }
 export -f one; export seed limit out
